@@ -408,14 +408,19 @@ func Corpus(tier string, embedded []*Schema) []*Schema {
 		cm := newMsg("vc.samename.two", "Outer")
 		cm.field("holder", 1, tMessage, bm.path)
 		fc.MessageType = append(fc.MessageType, cm.msg)
-		add(&Schema{Name: "samename", Files: []*descriptorpb.FileDescriptorProto{fa, fb, fc}})
+		// and an import that no Go identifier of the file refers to (imported for its options, or simply unused), from yet
+		// another directory whose Go package is again called "types": it must still be linked in (blank import)
+		fu := file("vc/samename/unused.proto", "vc.samename.unused", goPkg("samename", "unused/types"))
+		fu.EnumType = append(fu.EnumType, enum("Flag", "FLAG_UNSPECIFIED", 0, "FLAG_SET", 1))
+		fc.Dependency = append(fc.Dependency, "vc/samename/unused.proto")
+		add(&Schema{Name: "samename", Files: []*descriptorpb.FileDescriptorProto{fa, fb, fu, fc}})
 		// the same files, one plugin invocation per file (what `protoc a.proto; protoc b.proto` does)
 		cl := func(f *descriptorpb.FileDescriptorProto, from, to string) *descriptorpb.FileDescriptorProto {
 			c := proto.Clone(f).(*descriptorpb.FileDescriptorProto)
 			c.Options.GoPackage = proto.String(strings.Replace(c.Options.GetGoPackage(), from, to, 1))
 			return c
 		}
-		add(&Schema{Name: "perfile", Files: []*descriptorpb.FileDescriptorProto{cl(fa, "/samename/", "/perfile/"), cl(fb, "/samename/", "/perfile/"), cl(fc, "/samename/", "/perfile/")}, PerFile: true})
+		add(&Schema{Name: "perfile", Files: []*descriptorpb.FileDescriptorProto{cl(fa, "/samename/", "/perfile/"), cl(fb, "/samename/", "/perfile/"), cl(fu, "/samename/", "/perfile/"), cl(fc, "/samename/", "/perfile/")}, PerFile: true})
 	}
 
 	// ---- services (method input/output dependencies)
